@@ -49,8 +49,14 @@ def make_case(rng, nobs, spacing, labeling):
     m = int(pos[-1]) + 1 + lead + trail
     template = np.zeros(m)
     template[pos + lead] = 1
-    per = {"dekad": 10, "pentad": 5, "month": 30}[labeling]
+    per = {"dekad": 10, "pentad": 5, "month": 30, "dekad-of-year": 10, "month-of-year": 30}[labeling.split(":")[0]]
     labels = (np.arange(m) // per).astype("int32") + int(rng.integers(0, 50))
+    if "of-year" in labeling:
+        # period-of-year labels over a season that crosses the new year: contiguous runs whose values are NOT ascending (…, 35, 36, 1, 2, …)
+        cyc = 36 if per == 10 else 12
+        nruns = int(labels.max() - labels.min()) + 1
+        if nruns <= cyc:
+            labels = ((labels - labels.min() + cyc - max(1, nruns // 2)) % cyc + 1).astype("int32")
     return template, labels
 
 
@@ -84,7 +90,7 @@ def run(tier, rng, rep):
         for spacing in (5, 8, 10, 16, "irregular"):
             if nobs * (spacing if spacing != "irregular" else 10) > (4000 if tier == "thorough" else 1300):
                 continue
-            for labeling in ("dekad", "pentad", "month"):
+            for labeling in ("dekad", "pentad", "month", "dekad-of-year", "month-of-year"):
                 template, labels = make_case(rng, nobs, spacing, labeling)
                 x = rng.integers(-2000, 10000, nobs).astype("int16")
                 check(x, template, labels, rep)
